@@ -13,7 +13,9 @@ func init() {
 		ID:    "C07",
 		Level: "exploration",
 		Rule: "one history per case on alignment.Seq/QSeq (column-stored, >=1 column, offset 0), multi.Multi of Seq/QSeq rows with arbitrary row offsets, or multi.Set: 1..6 rows x 0..30 columns, then up to 6 edits from " +
-			"{AppendColumns, AppendEach with unequal run lengths, Delete, Add (clipped / gap-filled rows), Flush at either or both ends with gap or 'n', Truncate/Subseq over a range every row covers, Clone then mutate either copy, Set, row SetOffset}; " +
+			"{AppendColumns, AppendEach with unequal run lengths (1 in 3 with all columns / runs cut from one buffer so that each has the others in its spare capacity, now and then one run for two rows), Delete, Add (rows clipped at either end, gap-filled, or wholly outside), " +
+			"Flush at either or both ends with gap or 'n' (IsFlush asked afterwards), Truncate/Subseq over a range every row covers, Clone then mutate either copy, Set, row SetOffset, SetOffset of a whole row-stored alignment (every row moves alike)}; " +
+			"alphabets: the six nucleotide ones, Protein and two case-sensitive ones (upper case only; both cases as distinct letters); " +
 			"after every edit the caller's buffers are overwritten, then row view, column view (Column and ColumnQL with fill), Rows/Len/Start/End are compared with a grid model, frozen copies re-observed, and uniform valid columns checked against DefaultConsensus. " +
 			"Non-trivial = >=2 rows and >=2 edits; distinct = initial grid + edits",
 		Batches: func(t string) int {
@@ -27,9 +29,12 @@ func init() {
 		MinDistinct: func(t string) int { return 3000 },
 		Floors: func(string) map[string]int64 {
 			return map[string]int64{"op_append_columns": 1500, "op_append_each": 1500, "append_each_padded": 300, "op_delete": 800, "op_add": 800, "op_flush": 500, "flush_padded_ragged_rows": 200,
-				"op_truncate": 200, "op_subseq": 200, "op_clone": 800, "caller_buffers_overwritten": 5000, "uniform_columns_consensus_checked": 3000, "states_compared": 15000}
+				"op_truncate": 200, "op_subseq": 200, "op_clone": 800, "caller_buffers_overwritten": 5000, "uniform_columns_consensus_checked": 3000, "states_compared": 15000,
+				"appends_from_one_shared_buffer": 2000, "add_rows_clipped_on_the_left": 80, "op_multi_setoffset": 400, "isflush_asked_after_flush": 500,
+				"histories_over_case_sensitive_alphabets": 1000, "uniform_columns_in_case_sensitive_or_protein_alphabets": 1000}
 		},
 		Assumptions: []string{
+			"Multi.SetOffset(o) moves every row by the same amount, either o minus the offset recorded in the container or o minus the old Start(); what a refused (malformed) AppendColumns/AppendEach leaves behind is not judged",
 			"grids handed to the constructors are private copies (the statement speaks about AppendColumns/AppendEach buffers only)",
 			"alignment.QSeq.Column applies its quality threshold: the column letter view is compared only for letters at or above it, ColumnQL always",
 			"column-stored alignments stay at offset 0; Truncate/Subseq are exercised on multi.Multi, whose methods they are",
@@ -52,6 +57,12 @@ func c07Case(r *obs.Run, i int) {
 		h.fail("initial-state", "freshly built container differs from the model: "+d)
 		return
 	}
+	switch {
+	case h.m.alpha().IsCased():
+		r.Count("histories_over_case_sensitive_alphabets", 1)
+	case h.m.Alpha == "Protein":
+		r.Count("histories_over_the_protein_alphabet", 1)
+	}
 	nops := 1 + rng.Intn(6)
 	done := 0
 	for k := 0; k < nops && !h.failed; k++ {
@@ -59,7 +70,7 @@ func c07Case(r *obs.Run, i int) {
 		if h.m.isSet() {
 			h.opAppendEach()
 		} else {
-			switch rng.Intn(14) {
+			switch rng.Intn(15) {
 			case 0, 1:
 				h.opAppendColumns()
 			case 2, 3:
@@ -78,6 +89,8 @@ func c07Case(r *obs.Run, i int) {
 				h.opClone()
 			case 12:
 				h.opSet()
+			case 14:
+				h.opMultiSetOffset()
 			default:
 				if h.m.isMulti() {
 					h.opRowSetOffset()
